@@ -156,6 +156,13 @@ def _api_items(S=1):
         seg.qpd_8 = 'abc'
         return seg
 
+    def qpd_extra_two_digits():
+        seg = Segment('QPD', version=V, validation_level=S)
+        seg.qpd_1 = 'A'
+        seg.qpd_10 = 'abc'
+        seg.qpd_21 = 'def'
+        return seg
+
     def field_varies_override():
         f = Field('PID_5', datatype='varies', version=V, validation_level=S)
         if f.datatype != 'XPN':
@@ -227,7 +234,7 @@ def _api_items(S=1):
             ('field-setter-datatype-override', None, field_setter_override),
             ('subcomponent-wrong-datatype-object', 'C05-datatype-object-unchecked', sub_wrong_class),
             ('overlong-datatype-object-built-tolerant', 'C05-datatype-object-unchecked', field_overlong_instance),
-            ('qpd-extra-field', 'C05-open-ended-extra-field', qpd_extra), ('field-ctor-varies-override', 'C05-varies-override', field_varies_override),
+            ('qpd-extra-field', 'C05-open-ended-extra-field', qpd_extra), ('qpd-extra-field-two-digits', None, qpd_extra_two_digits), ('field-ctor-varies-override', 'C05-varies-override', field_varies_override),
             ('duplicate-single-field', None, dup_single), ('foreign-field', None, foreign_field), ('unknown-field', None, unknown_field),
             ('invalid-value', None, invalid_value), ('varies-field-datatype-setter', None, varies_field_setter),
             ('z-segment-added', None, z_segment), ('z-segment-parsed', None, z_segment_parsed),
